@@ -79,13 +79,24 @@ Definition scaled (digits : Z) (x : fl) : Z :=
   if 0 <=? f_e x then f_m x * 2 ^ f_e x * p
   else rne_div (f_m x * p) (2 ^ (- f_e x)).
 
-(* fmt's %f (precision 6) on a float64 *)
-Definition fmt_f (x : fl) : str :=
+(* strconv.FormatFloat(x, 'f', d, 64): d decimals, round-half-even on the exact binary value *)
+Definition fmt_fixed (d : nat) (x : fl) : str :=
   if f_class x =? 1 then lit "NaN"
   else if f_class x =? 2 then (if f_neg x then lit "-Inf" else lit "+Inf")
   else
-    let n := scaled 6 x in
-    (if f_neg x then ["-"%char] else []) ++ udec (n / 1000000) ++ "."%char :: fixed_digits 6 n.
+    let n := scaled (Z.of_nat d) x in
+    (if f_neg x then ["-"%char] else []) ++ udec (n / 10 ^ Z.of_nat d) ++
+    match d with O => [] | _ => "."%char :: fixed_digits d n end.
+
+(* fmt's %f (precision 6) on a float64 *)
+Definition fmt_f (x : fl) : str := fmt_fixed 6 x.
+
+(* strings.TrimSuffix(s, suf) *)
+Fixpoint trim_suffix (suf s : str) : str :=
+  match s with
+  | [] => []
+  | a :: r => if str_eqb (a :: r) suf then [] else a :: trim_suffix suf r
+  end.
 
 (* ---------- time ---------- *)
 
